@@ -188,8 +188,19 @@ def tlc_monitor(module, cfg, trace_path, timeout=1800, constants=None):
 def go_build_test(pkg, tags="verif"):
     """Builds the driver test binary of harness/<pkg> against /repo's working tree."""
     outbin = os.path.join(scratch(), pkg.replace("/", "_") + ".test")
-    # go.sum of the harness follows the repository's
-    out, dt = run(["go", "test", "-c", "-tags", tags, "-o", outbin, "./" + pkg], cwd=HARNESS, env=GOENV, timeout=1200)
+    # a private copy of go.mod/go.sum: concurrent checks never rewrite the committed files, and the
+    # `replace` follows VERIF_REPO (scratch worktrees used for mutation runs)
+    modfile = os.path.join(scratch(), "go.mod")
+    if not os.path.exists(modfile):
+        with open(os.path.join(HARNESS, "go.mod")) as f:
+            mod = f.read()
+        mod = re.sub(r"(?m)^replace github.com/nspcc-dev/neofs-contract => .*$",
+                     "replace github.com/nspcc-dev/neofs-contract => " + REPO, mod)
+        with open(modfile, "w") as f:
+            f.write(mod)
+        shutil.copy(os.path.join(HARNESS, "go.sum"), os.path.join(scratch(), "go.sum"))
+    out, dt = run(["go", "test", "-modfile", modfile, "-c", "-tags", tags, "-o", outbin, "./" + pkg], cwd=HARNESS, env=GOENV,
+                  timeout=1200)
     return outbin, dt
 
 
@@ -319,3 +330,149 @@ def decide(pid, flags, trace, known, seed, scenario_of, drift_ok=True):
         acts = sorted(set((f["pred"], f["act"]) for f in drift))
         print("DRIFT: %d recorded steps are not steps of the Spec (model drift, not an alarm): %s" % (len(drift), acts[:8]))
     return violations, known_seen, len(drift)
+
+
+# ----------------------------------------------------------------------------- generic family pipeline
+
+class Family:
+    """Description of one property family. Subclass/instantiate in lib/fam_<name>.py.
+
+    Attributes
+      name            family name (harness/<driver_pkg>, logs)
+      props           tuple of property ids served
+      level           evidence level (default model_checking)
+      assume          list of assumption strings for the evidence file
+      tiers           {"quick": {...}, "thorough": {...}} with keys
+                        mc: list of (module, cfg) checked exhaustively by TLC (S1), may be []
+                        mc_timeout, sim: (module, cfg, num, depth) or None, sim_keep, nrand, shards,
+                        drive_timeout, env: extra environment for the driver
+      driver_pkg      Go package under harness/ with TestDrive
+      monitor         (module, cfg) of the trace monitor; cfg must contain TraceFile = "trace.ndjson"
+      step_keys       keys of a trace record that make up a replayable scenario step
+      reset_keys      keys of the reset record copied into a replay scenario (e.g. n, scale, src)
+      min_halt_share  vacuity guard: minimal share of HALTed steps (default 0.2)
+    Methods (override)
+      nontrivial_key(r, prev) -> hashable or None
+      scenario_from_tlc(s)    -> scenario dict given one TLC-printed object (default: project steps to step_keys)
+      rule                    text for the evidence file
+    """
+    level = "model_checking"
+    reset_keys = ("n", "scale", "src")
+    min_halt_share = 0.2
+    rule = ""
+    assume = []
+    monitor_constants = None
+
+    def nontrivial_key(self, r, prev):
+        return (r.get("act"), r.get("res"), r.get("ret"))
+
+    def scenario_from_tlc(self, s):
+        return dict(steps=[{k: st[k] for k in self.step_keys if k in st} for st in s["steps"]])
+
+    def extra_coverage(self, trace_all, flags_all):
+        return {}
+
+
+def run_family(F, pid, tier, seed, replay=None):
+    import collections
+    import concurrent.futures as cf
+    import random
+    t0 = time.time()
+    cfg = F.tiers[tier]
+    known = known_findings()
+    mcs = []
+    scs = []
+    nrand = 0
+    if replay is None:
+        for (module, c) in cfg.get("mc", []):
+            mc = tlc_modelcheck(module, c, timeout=cfg.get("mc_timeout", 900), workers=min(NCPU, 12))
+            log("S1 %s/%s: %d distinct states, %d generated, %.0fs" % (module, c, mc["states"], mc["transitions"], mc["wall_s"]))
+            mcs.append(mc)
+        if cfg.get("sim"):
+            module, c, num, depth = cfg["sim"]
+            raw, dt = tlc_simulate(module, c, num, depth, seed)
+            uniq = {json.dumps(s, sort_keys=True): s for s in raw}
+            keys = sorted(uniq)
+            random.Random(seed).shuffle(keys)
+            scs = [F.scenario_from_tlc(uniq[k]) for k in keys[:cfg.get("sim_keep", 200)]]
+            log("S2: %d TLC-generated scenarios (%.0fs)" % (len(scs), dt))
+        nrand = cfg.get("nrand", 0)
+    else:
+        rp = json.load(open(replay))
+        scs = [rp["scenario"]]
+    scen_path = os.path.join(scratch(), "scenarios.json")
+    json.dump(scs, open(scen_path, "w"))
+    binary, dt = go_build_test(F.driver_pkg)
+    log("driver harness/%s built against %s working tree (%.0fs)" % (F.driver_pkg, REPO, dt))
+    nsh = 1 if replay else cfg.get("shards", 4)
+    envs = []
+    for i in range(nsh):
+        e = dict(VERIF_OUT=os.path.join(scratch(), "trace%d.ndjson" % i), VERIF_SCEN=scen_path, VERIF_SEED=seed,
+                 VERIF_NRAND=nrand, VERIF_SHARD=i, VERIF_NSHARD=nsh, VERIF_TIER=tier, VERIF_NOTRAPS="1" if replay else "")
+        e.update(cfg.get("env", {}))
+        envs.append(e)
+    stats, dt = go_drive(binary, envs, timeout=cfg.get("drive_timeout", 3000))
+    acts = collections.Counter()
+    for s in stats:
+        acts.update(s.get("acts", {}))
+    log("S3: %d steps executed on the real code (%.0fs)" % (sum(s["lines"] for s in stats), dt))
+
+    def mon(i):
+        p = os.path.join(scratch(), "trace%d.ndjson" % i)
+        tr = read_trace(p)
+        if not tr:
+            return [], tr
+        fl, done, dt = tlc_monitor(F.monitor[0], F.monitor[1], p, constants=F.monitor_constants,
+                                   timeout=cfg.get("monitor_timeout", 1800))
+        if done != len(tr):
+            raise Inconclusive("S4: monitor consumed %s of %d lines of shard %d" % (done, len(tr), i))
+        return fl, tr
+    with cf.ThreadPoolExecutor(max_workers=min(nsh, 8)) as ex:
+        results = list(ex.map(mon, range(nsh)))
+    flags_all, trace_all = [], []
+    for fl, tr in results:
+        base = len(trace_all)
+        for f in fl:
+            f["line"] += base
+        flags_all += fl
+        trace_all += tr
+    log("S4: %d recorded steps judged by the TLA+ monitor %s, %d flags" % (len(trace_all), F.monitor[0], len(flags_all)))
+    by_trace = collections.defaultdict(list)
+    for r in trace_all:
+        by_trace[str(r["t"])].append(r)
+
+    def scenario_of(tid):
+        rs = by_trace[str(tid)]
+        sc = {k: rs[0][k] for k in F.reset_keys if k in rs[0]}
+        sc["steps"] = [{k: r[k] for k in F.step_keys if k in r} for r in rs[1:]]
+        return sc
+    halts = sum(v for k, v in acts.items() if k.endswith("|HALT") and not k.startswith("reset"))
+    total = sum(v for k, v in acts.items() if not k.startswith("reset"))
+    if replay is None and (total == 0 or halts < F.min_halt_share * total):
+        raise Inconclusive("too few successful steps (%d of %d): the harness is not exercising the code" % (halts, total))
+    violations, known_seen, drift = decide(pid, flags_all, trace_all, known, seed, scenario_of)
+    distinct = set()
+    prev = None
+    for r in trace_all:
+        if r["act"] == "reset":
+            prev = r
+            continue
+        k = F.nontrivial_key(r, prev)
+        if k is not None:
+            distinct.add(k)
+        prev = r
+    samples = []
+    for tid in list(by_trace)[:2]:
+        rs = by_trace[tid]
+        samples.append(dict(trace=tid, setup={k: rs[0][k] for k in F.reset_keys if k in rs[0]},
+                            steps=[compact_step(r, tuple(F.step_keys) + ("res", "ret")) for r in rs[1:13]]))
+    cov = dict(states=sum(m["states"] for m in mcs) or 1, transitions=sum(m["transitions"] for m in mcs) or 1,
+               traces_validated_against_impl=len(by_trace), evaluations=len(trace_all) - len(by_trace),
+               distinct_nontrivial=len(distinct), rule=F.rule, samples=samples, exhaustive=False, s1=mcs,
+               actions=dict(acts), drift_steps=drift, known_findings_seen=sorted(known_seen),
+               tlc_scenarios=len(scs), random_scenarios=nrand,
+               monitor_flags_total=len([f for f in flags_all if f["prop"] == pid]))
+    cov.update(F.extra_coverage(trace_all, flags_all))
+    if replay is None:
+        write_evidence(pid, tier, seed, F.level, cov, time.time() - t0, len(violations), F.assume)
+    return 1 if violations else 0
